@@ -212,6 +212,109 @@ theorem C24_lexok_table (H : Hyps) (input : Array Char) (tbl : List (Nat × Nat 
     (h : lexOkTable H input tbl = true) : LexOk H (Lex.ofTable input tbl) :=
   lexOkTable_sound h
 
+
+/-! ### the hypothesis restricted to the positions the parser really visits
+
+`NoTrailingSep tx i L` quantifies over *all* positions, also those inside comments, strings and regular
+expressions of the grammar text, which the RREL rules never see (`C24_unvisited_example`).  The
+instrumented graph `trap tx unproved` (`Peg/RecX.lean`) guards each of the two separators by a lookahead
+for the element, with a non-terminating alternative: its run terminates iff the actual run of `tx` meets
+no trailing separator.  The guarded repetitions satisfy `NoTrailingSep` for *every* lexer
+(`trap_notrail`), so the extended checker relates the instrumented graph to `tx` and to
+`unsep tx unproved` without any hypothesis on the lexer beyond `hyps`. -/
+
+/-- shape table of `trap tx unproved`: `tx`'s, then per guard `Sequence` (T), `And` (N), `OrderedChoice` (T), `ω` -/
+def trapSh : ShTab := fun a =>
+  if a < tx.size then txoSh a else
+    match (a - tx.size) % 4 with
+    | 0 => [.T]
+    | 1 => [.N]
+    | 2 => [.T]
+    | _ => []
+def trapSide : Side := ⟨trap tx unproved, trapSh⟩
+
+def sepOf (g : Graph) (i : Nat) : List Nat :=
+  match g.get i with
+  | some nd => nd.sep.toList
+  | none => []
+
+/-- identity on the nodes of `tx`; each guarded separator is related to the plain separator -/
+def trapRel : Rel := fun a =>
+  if a < tx.size then [a]
+  else if (a - tx.size) % 4 = 0 then
+    (match unproved[(a - tx.size) / 4]? with
+     | some i => sepOf tx i
+     | none => [])
+  else []
+
+/-- kernel evaluation on the generated graph: the instrumented graph is well formed, its repetitions
+are guarded, and it is related by the extended checker to `tx` (no exceptional pair) and to
+`unsep tx unproved` (exceptional pairs: the guarded repetitions, for which `NoTrailingSep` is a theorem) -/
+theorem C24_check_trap :
+    wfSh trapSide.g hyps trapSide.sh = true ∧ (unproved.all fun i => trapOk trapSide i) = true ∧
+    checkX trapSide txSide hyps 0 trapRel [] [] = true ∧
+    checkX trapSide txoSide hyps 0 trapRel unprovedPairs [] = true := by
+  refine ⟨?_, ?_, ?_, ?_⟩ <;> decide +kernel
+
+/-- the actual run of `tx` on this input meets no trailing separator at the nodes of `unproved`:
+the instrumented graph terminates -/
+def CleanRun (L : Lex) : Prop :=
+  ∃ n, parse (trap tx unproved) L n (trap tx unproved).top false 0 ≠ .fuel
+
+theorem same_result {g₁ g₂ : Graph} {L : Lex} {r : Res} (hr : r ≠ .fuel)
+    (h1 : ∃ m, parse g₁ L m g₁.top false 0 = r) (h2 : ∃ m, parse g₂ L m g₂.top false 0 = r) :
+    (accepts g₁ L ↔ accepts g₂ L) ∧ (rejects g₁ L ↔ rejects g₂ L) := by
+  have key : ∀ (g : Graph), (∃ m, parse g L m g.top false 0 = r) →
+      (accepts g L ↔ ∃ v p, r = .ok v p) ∧ (rejects g L ↔ r = .fail) := by
+    intro g ⟨m, hm⟩
+    constructor
+    · constructor
+      · rintro ⟨n, v, p, h⟩
+        have := parse_det g L (n := n) (m := m) (a := g.top) (c := false) (p := 0) (by rw [h]; simp) (by rw [hm]; exact hr)
+        rw [h, hm] at this
+        exact ⟨v, p, this.symm⟩
+      · rintro ⟨v, p, h⟩
+        exact ⟨m, v, p, by rw [hm, h]⟩
+    · constructor
+      · rintro ⟨n, h⟩
+        have := parse_det g L (n := n) (m := m) (a := g.top) (c := false) (p := 0) (by rw [h]; simp) (by rw [hm]; exact hr)
+        rw [h, hm] at this
+        exact this.symm
+      · intro h
+        exact ⟨m, by rw [hm, h]⟩
+  have k1 := key g₁ h1
+  have k2 := key g₂ h2
+  exact ⟨k1.1.trans k2.1.symm, k1.2.trans k2.2.symm⟩
+
+/-- **C24 for `textx.tx` itself (partial, run-level hypothesis).**  For every lexer satisfying `hyps`
+such that the actual run of the `textx.tx` parser meets no trailing RREL separator (`CleanRun L`:
+the instrumented graph terminates — only positions the parser really visits count), the grammar
+compiler's parser (`lang.py`) and the parser compiled from `textx.tx` accept the same inputs and
+reject the same inputs.
+
+Missing for `C24_agree_tx_statement`: the inputs on which the run does meet a trailing separator
+(`A: b=[B|n|a.];`); both parsers reject those (correspondence on every generated text), but the proof
+of that is a follow-set argument about the whole grammar. -/
+theorem C24_agree_tx_run_partial (L : Lex) (hL : LexOk hyps L) (hrun : CleanRun L) :
+    (accepts lang L ↔ accepts tx L) ∧ (rejects lang L ↔ rejects tx L) := by
+  obtain ⟨n, hne⟩ := hrun
+  have hs : trapSide.Ok hyps L := ⟨C24_check_trap.1, hL⟩
+  have hT : ∀ ab, ab ∈ unprovedPairs → NoTrailingSep trapSide.g ab.1 L := by
+    intro ab hab
+    simp only [unprovedPairs, List.mem_map] at hab
+    obtain ⟨i, hi, rfl⟩ := hab
+    exact trap_notrail hs (List.all_eq_true.mp C24_check_trap.2.1 i hi)
+  have t1 := simX_sound C24_check_trap.1 C24_check_tx.1 C24_check_trap.2.2.1 hL (fun _ h => by simp at h)
+    (fun _ h => by simp at h) (checkX_base C24_check_trap.2.2.1).2.1 n false 0 hne
+  have t2 := simX_sound C24_check_trap.1 C24_check.2.1 C24_check_trap.2.2.2 hL hT
+    (fun _ h => by simp at h) (checkX_base C24_check_trap.2.2.2).2.1 n false 0 hne
+  obtain ⟨m1, hm1⟩ := t1
+  obtain ⟨m2, hm2⟩ := t2
+  have h12 := same_result (g₁ := tx) (g₂ := unsep tx unproved) hne ⟨m1, hm1 m1 (Nat.le_refl _)⟩
+    ⟨m2, hm2 m2 (Nat.le_refl _)⟩
+  have h0 := C24_agree_partial L hL
+  exact ⟨h0.1.trans h12.1.symm, h0.2.trans h12.2.symm⟩
+
 /-! ### why the RREL separator repetitions are left to correspondence: the two formulations differ -/
 
 /-- `x+[s] s` as a parser model: 0 = Sequence[1, 3], 1 = OneOrMore(2, sep=3), 2 = 'x', 3 = 's' -/
@@ -274,6 +377,32 @@ theorem C24_trailing_example : LexOk hyps exTrailLex ∧ (∃ i, i ∈ unproved 
   have hex : (unproved.any fun i => !noTrailScanB tx i exTrailLex 100) = true := by decide +kernel
   obtain ⟨i, hi, hb⟩ := List.any_eq_true.mp hex
   exact ⟨i, hi, C24_notrail_scan _ _ _ 100 (by simpa using hb)⟩
+
+
+/-- lexer of the text `A: 'a.';` -/
+def exStrLex : Lex := Lex.ofTable exStrInput exStrTable
+
+/-- the run-level hypothesis holds for the real text of `C24_accepts_example` -/
+theorem C24_cleanrun_example : LexOk hyps exOkLex ∧ CleanRun exOkLex :=
+  ⟨C24_accepts_example.1, 400, by decide +kernel⟩
+
+/-- `A: 'a.';` — inside the string, `a` `.` is followed by a quote: the all-positions hypothesis
+`NoTrailingSep` fails at a position the RREL rules never visit, the run-level hypothesis holds, and
+`C24_agree_tx_run_partial` applies (both graphs accept) -/
+theorem C24_unvisited_example : LexOk hyps exStrLex ∧ (∃ i, i ∈ unproved ∧ ¬ NoTrailingSep tx i exStrLex) ∧
+    CleanRun exStrLex ∧ accepts lang exStrLex ∧ accepts tx exStrLex := by
+  have hL : LexOk hyps exStrLex := C24_lexok_table _ _ _ (by decide +kernel)
+  have hrun : CleanRun exStrLex := ⟨400, by decide +kernel⟩
+  have ha : accepts lang exStrLex := ⟨400, .T, exStrInput.size, by decide +kernel⟩
+  refine ⟨hL, ?_, hrun, ha, (C24_agree_tx_run_partial _ hL hrun).1.mp ha⟩
+  have hex : (unproved.any fun i => !noTrailScanB tx i exStrLex 100) = true := by decide +kernel
+  obtain ⟨i, hi, hb⟩ := List.any_eq_true.mp hex
+  exact ⟨i, hi, C24_notrail_scan _ _ _ 100 (by simpa using hb)⟩
+
+/-- on the text with a trailing RREL separator the instrumented run does not terminate within fuel 400
+(kernel evaluation; the guard diverges) -/
+theorem C24_trailing_trap_example :
+    parse (trap tx unproved) exTrailLex 400 (trap tx unproved).top false 0 = .fuel := by decide +kernel
 
 /-! ### non-vacuity -/
 
